@@ -14,20 +14,20 @@ Trace == ndJsonDeserialize(TraceFile)
 
 VARIABLES l,     \* next event
           acc,   \* verdicts of the current concrete world, keyed by <<now, entry, gc, cr>>
-          cid    \* case id of the current concrete world
+          cid    \* <<case id, realisation>> of the current concrete world
 jvars == <<vars, l, acc, cid>>
 
 IsEvent(e) == l <= Len(Trace) /\ Trace[l].ev = e /\ l' = l + 1
 
 JInit == /\ w = Baseline /\ o = [gc |-> FALSE, cr |-> FALSE, now |-> "set", entry |-> "raw"]
          /\ pc = 1 /\ verdict = "done" /\ fetches = <<>> /\ dp = 1
-         /\ l = 1 /\ acc = <<>> /\ cid = 0
+         /\ l = 1 /\ acc = <<>> /\ cid = <<0, 0>>
 
 JCall == /\ IsEvent("Call")
          /\ w' = Trace[l].w /\ o' = Trace[l].o
          /\ fetches' = <<>> /\ verdict' = "none"
-         /\ cid' = Trace[l].case
-         /\ acc' = IF Trace[l].case = cid THEN acc ELSE <<>>
+         /\ cid' = <<Trace[l].case, IF "real" \in DOMAIN Trace[l] THEN Trace[l].real ELSE 0>>
+         /\ acc' = IF cid' = cid THEN acc ELSE <<>>          \* verdicts are compared within one realisation of the world only
          /\ UNCHANGED <<pc, dp>>
 
 JFetch == /\ IsEvent("Fetch") /\ verdict = "none"
